@@ -447,7 +447,7 @@ impl Property for C07 {
     }
     fn required_labels(&self) -> Vec<String> {
         let mut v: Vec<String> = registry().iter().map(|e| format!("type={}", e.full)).collect();
-        v.extend(["schema=proto", "schema=python", "unknown-field", "unpacked", "map", "deprecated-field", "oneof-unset", "oneof-set", "shuffled", "explicit-default", "enum-undeclared-number", "read-through-artifact-layer", "sweep=big-payloads", "payload>=16KiB", "big-payload-nested", "sweep=pre-1.6-sample-set"].iter().map(|s| s.to_string()));
+        v.extend(["schema=proto", "schema=python", "unknown-field", "unpacked", "map", "deprecated-field", "oneof-unset", "oneof-set", "shuffled", "explicit-default", "enum-undeclared-number", "read-through-artifact-layer", "sweep=big-payloads", "payload>=16KiB", "big-payload-nested", "sweep=pre-1.6-sample-set", "sweep=typed-layer-blobs", "typed-layer-blob>=1MiB"].iter().map(|s| s.to_string()));
         v
     }
     fn cases(&self, tier: Tier) -> usize {
@@ -467,7 +467,7 @@ impl Property for C07 {
         ]
     }
     fn sweep_len(&self, _tier: Tier) -> usize {
-        5 + enum_registry().len() + 1
+        5 + enum_registry().len() + 2
     }
     fn sweep_description(&self) -> Option<String> {
         Some("descriptor agreement (.proto text vs Python serialized descriptors vs #[prost] attributes), harness registry completeness, every enum value, the bundled old artifact, 1.6 and pre-1.6 sample sets, and every repeated / map field of every message type with 300 and 3000 elements (payloads up to tens of KiB), alone and nested in every message that can hold it".into())
@@ -640,6 +640,19 @@ impl Property for C07 {
             k if k == 5 + enum_registry().len() => {
                 ctx.nontrivial();
                 big_payload_sweep(proto, ctx)
+            }
+            k if k == 6 + enum_registry().len() => {
+                ctx.nontrivial();
+                ctx.label("sweep=typed-layer-blobs");
+                for nvars in [3usize, 60_000] {
+                    if let Err(m) = typed_layer_blob_is_the_message(proto, nvars, ctx) {
+                        if m.starts_with("infra:") {
+                            inconclusive(&format!("C07 typed-layer sweep: {m}"));
+                        }
+                        return fail("C07/typed-layer-blob", format!("instance with {nvars} variables stored with add_instance: {m}"));
+                    }
+                }
+                Ok(())
             }
             k => {
                 let (name, to_name, from_name) = enum_registry()[k - 5];
@@ -859,6 +872,68 @@ fn big_payload_sweep(s: &Schema, ctx: &mut Ctx) -> PResult {
     ctx.label("sweep=big-payloads");
     ctx.sample_with(|| json!({"sweep": "big payloads", "messages_checked": cases}));
     Ok(())
+}
+
+/// What `Builder::add_instance` stores IS the protobuf message: another implementation reading the raw blob of the layer
+/// (media type application/org.ommx.v1.instance) must find the schema's encoding there, whatever the size of the message;
+/// the descriptor's size and digest are those of that blob.
+fn typed_layer_blob_is_the_message(s: &Schema, nvars: usize, ctx: &mut Ctx) -> Result<(), String> {
+    use ommx::artifact::{Artifact, Builder, InstanceAnnotations};
+    use ommx::ocipkg::Digest;
+    use sha2::Digest as _;
+    let mut inst = v1::Instance::default();
+    inst.sense = 1;
+    let mut terms = vec![];
+    for i in 0..nvars as u64 {
+        let mut v = v1::DecisionVariable::default();
+        v.id = i;
+        v.kind = 1 + (i % 3) as i32;
+        v.bound = Some(crate::mk::bound(-(i as f64) - 0.5, i as f64 + 1.25));
+        v.name = Some(format!("x{i}"));
+        inst.decision_variables.push(v);
+        terms.push((i, 1.0 + (i % 7) as f64 * 0.5));
+    }
+    inst.objective = Some(crate::mk::flin(crate::mk::linear(terms, 2.5)));
+    let dir = std::path::Path::new("/verif/target/tmp");
+    let _ = std::fs::create_dir_all(dir);
+    let path = dir.join(format!("c07-typed-{}-{nvars}.ommx", std::process::id()));
+    let _ = std::fs::remove_file(&path);
+    let r = (|| -> Result<(), String> {
+        let mut b = Builder::new_archive_unnamed(path.clone()).map_err(|e| format!("infra: {e:#}"))?;
+        b.add_instance(inst.clone(), InstanceAnnotations::default()).map_err(|e| format!("add_instance failed: {e:#}"))?;
+        b.build().map_err(|e| format!("build failed: {e:#}"))?;
+        let mut a = Artifact::from_oci_archive(&path).map_err(|e| format!("the archive cannot be re-opened: {e:#}"))?;
+        let manifest = a.get_manifest().map_err(|e| format!("get_manifest failed: {e:#}"))?;
+        let desc = manifest.layers().first().cloned().ok_or("no layer in the manifest")?;
+        let digest = Digest::new(desc.digest()).map_err(|e| format!("infra: {e:#}"))?;
+        let (d2, blob) = a.get_layer(&digest).map_err(|e| format!("get_layer failed: {e:#}"))?;
+        if blob.len() >= 1 << 20 {
+            ctx.label("typed-layer-blob>=1MiB");
+        }
+        if d2.size() as usize != blob.len() {
+            return Err(format!("descriptor says {} bytes, the blob has {}", d2.size(), blob.len()));
+        }
+        let hex: String = sha2::Sha256::digest(&blob).iter().map(|b| format!("{b:02x}")).collect();
+        if desc.digest() != &format!("sha256:{hex}") {
+            return Err(format!("the layer is addressed as {} but its blob hashes to sha256:{hex}", desc.digest()));
+        }
+        // the blob under the schema, read by the independent decoder
+        let (dm, unknown) = decode(s, "ommx.v1.Instance", &blob).map_err(|e| format!("the raw blob of the layer is not an ommx.v1.Instance message under the published schema ({e}); first bytes {:02x?}", &blob[..blob.len().min(8)]))?;
+        if unknown != 0 {
+            return Err(format!("the raw blob carries {unknown} fields unknown to the schema"));
+        }
+        let want = inst.to_dyn();
+        if dm != want {
+            return Err(format!("the raw blob decodes to other content than the stored instance: {}", first_diff(&want, &dm)));
+        }
+        let (got, _) = a.get_instance(&digest).map_err(|e| format!("get_instance failed: {e:#}"))?;
+        if got != inst {
+            return Err("get_instance returns other content than was stored".into());
+        }
+        Ok(())
+    })();
+    let _ = std::fs::remove_file(&path);
+    r
 }
 
 /// Store `bytes` as a raw layer of the matching media type in a local archive, read it back through the typed
